@@ -22,7 +22,8 @@ def seeded_mutants(ids):
         if ids and m["id"] not in ids and m["property"] not in ids:
             continue
         out.append({"id": "seeded:" + m["id"], "check": m.get("check", m["property"]), "what": m["needs_to_manifest"][:90],
-                    "expect": "equivalent" if m.get("expect") == "not-a-violation" else "detected",
+                    "expect": ("equivalent" if m.get("expect") == "not-a-violation" else
+                               "open-miss" if m.get("expect") == "open-miss" else "detected"),
                     "patch": os.path.join(os.path.dirname(d), "patch.diff")})
     return out
 
@@ -82,7 +83,10 @@ def main(ids):
                         rep_m, len(paths), rep_c, len(paths))
                     if rep_m != len(paths) or rep_c != len(paths):
                         res = "detected-but-replay-mismatch"
-            ok = res == m["expect"] or (m["expect"] == "equivalent" and res == "silent")
+            # open-miss: a recorded change the check is KNOWN not to report (DESIGN 8.6, limits); silent as
+            # recorded, or detected by now - both are fine, anything else (harness error) is not
+            ok = res == m["expect"] or (m["expect"] == "equivalent" and res == "silent") \
+                or (m["expect"] == "open-miss" and res in ("silent", "detected"))
             if not ok:
                 bad += 1
             results.append({"id": m["id"], "check": m["check"], "what": m["what"], "expect": m["expect"],
